@@ -417,6 +417,8 @@ class Check:
             if cvc5["disagree"]:
                 engine_faults.append({"fatal": "cvc5 disagrees with z3 on %d queries" % cvc5["disagree"]})
 
+        slow = sorted(((results[ix].get("wall", 0), alljobs[ix][0]["harness"], alljobs[ix][0]["params"]) for ix in range(len(alljobs))), key=lambda x: -x[0])[:4]
+        self.slowest = [{"wall_s": round(w, 1), "harness": h, "params": p} for w, h, p in slow]
         unreached = sorted(l for l, a in labels.items() if a[0] == 0)
         self.result = dict(tot=tot, ends=ends, labels=labels, functions=sorted(functions), engine_faults=engine_faults, truncated=truncated,
                            violations=violations, known_hits=known_hits, unconfirmed=unconfirmed, aborted_by_fault=aborted_by_fault, samples=samples_out,
@@ -480,6 +482,7 @@ class Check:
             "unconfirmed_natively": len(R["unconfirmed"]), "unconfirmed_examples": R["unconfirmed"][:3],
             "engine_faults": R["engine_faults"][:5],
             "cvc5_crosscheck": R["cvc5"],
+            "slowest_jobs": getattr(self, "slowest", []),
         }
         cov.update(self.extra)
         ev = {"property_id": self.prop, "tier": self.tier, "seed": self.seed, "level": "model_checking", "coverage": cov,
